@@ -96,9 +96,31 @@ package gcsutil
 // countedLock: select on channels => trusted
 // ---------------------------------------------------------------------------------------------
 
+// Channel protocol of the key lock (ASSUMED, /verif/govc/chan.go: pseudo-contracts of channel operations): m.ch is a
+// channel of capacity 1 that only Lock sends to and only Unlock receives from. x is the countedLock whose ch field
+// the channel was loaded from. `requires` = the operation can proceed (select only picks such a case, and picks the
+// default only if none can); the effect is on the ghost slot state of x alone, and a finished context stays finished.
+//@ func chansend_countedLock_ch
+//@   requires !lmFull(x)
+//@   modifies ghost(lmTick)
+//@   ensures lmFull(x)
+//@   ensures forall y *gcsutil.countedLock :: y != x ==> lmFull(y) == old(lmFull(y))
+//@   ensures forall c context.Context :: old(lmCtxDone(c)) ==> lmCtxDone(c)
+
+//@ func chanrecv_countedLock_ch
+//@   requires lmFull(x)
+//@   modifies ghost(lmTick)
+//@   ensures !lmFull(x)
+//@   ensures forall y *gcsutil.countedLock :: y != x ==> lmFull(y) == old(lmFull(y))
+//@   ensures forall c context.Context :: old(lmCtxDone(c)) ==> lmCtxDone(c)
+
+// ASSUMED (package context): a receive from ctx.Done() can proceed iff the context has ended; it changes nothing.
+//@ func chanrecv_Context_Done
+//@   requires lmCtxDone(x)
+
+// Lock and Unlock are verified against the channel protocol above (they are no longer trusted).
 //@ func (m *countedLock) Lock
 //@   property C19
-//@   trusted select with channel send/receive (outside the subset). ASSUMES: m.ch is a channel of capacity 1 that only Lock sends to and only Unlock receives from, so a successful send fills an empty slot (mutual exclusion); the method returns false only after ctx.Err() != nil or ctx.Done() fired, and then has not sent; it touches no memory besides the channel.
 //@   requires !isnil(ctx)
 //@   modifies ghost(lmTick), ghost(lmLastOp), ghost(lmLastId), ghost(epoch)
 //@   ensures lmLastId == uf_lmId(m) && lmLastOp == (result ? 2 : 1)
@@ -109,7 +131,6 @@ package gcsutil
 
 //@ func (m *countedLock) Unlock
 //@   property C19
-//@   trusted non-blocking select with channel receive (outside the subset). ASSUMES: the receive succeeds iff the slot is full and then empties the slot; otherwise (slot empty, or nil channel) the method panics; it touches no memory besides the channel.
 //@   modifies ghost(lmTick), ghost(lmLastOp), ghost(lmLastId)
 //@   panics iff !lmFull(m)
 //@   ensures lmLastId == uf_lmId(m) && lmLastOp == 3
